@@ -438,6 +438,25 @@ func RunProperty(id, tier string, seed uint64, replayPath string) int {
 		}
 		exit = 1
 	}
+	if unlisted > 0 {
+		counts := map[string]int{}
+		for _, cv := range agg.Violations {
+			if matchKnown(known, id, cv.V) == nil {
+				counts[cv.V.Kind+" | "+cv.V.Sig]++
+			}
+		}
+		keys := make([]string, 0, len(counts))
+		for k := range counts {
+			keys = append(keys, k)
+		}
+		sort.Slice(keys, func(i, j int) bool { return counts[keys[i]] > counts[keys[j]] })
+		for i, k := range keys {
+			if i >= 40 {
+				break
+			}
+			fmt.Printf("  unlisted-signature x%d: %s\n", counts[k], k)
+		}
+	}
 	kids := []string{}
 	for kid := range knownSeen {
 		kids = append(kids, kid)
